@@ -18,6 +18,8 @@ void NEWTON_STEP(void)
     __CPROVER_requires(jver == xver && fver == xver && xver < 0xFFFFFFFFu && steps < 0xFFFFFFFFu)
     __CPROVER_assigns(xver, steps) __CPROVER_ensures(xver == __CPROVER_old(xver) + 1 && steps == __CPROVER_old(steps) + 1);
 bool ALLFINITE(void) __CPROVER_requires(1) __CPROVER_assigns() __CPROVER_ensures(__CPROVER_return_value == F_FINITE);
+double SQ_TOL;   /* the square of the tolerance: the multiplication is a trusted operation here (two copies of a double multiplier are not proved equal by SAT in reasonable time) */
+double SQUARE(double t) __CPROVER_requires(t == tolerance_) __CPROVER_assigns() __CPROVER_ensures(__CPROVER_return_value == SQ_TOL);
 
 bool constraint_project(void)
 __CPROVER_requires(xver == 0 && steps == 0 && tolerance_ == tolerance_)
@@ -35,6 +37,16 @@ __CPROVER_assigns(fver, last_norm, last_norm_ver)
 __CPROVER_ensures(fver == xver && (__CPROVER_return_value ==> (F_FINITE && last_norm_ver == xver && last_norm <= tolerance_ * tolerance_)))
 __CPROVER_ensures((F_FINITE && last_norm_ver == xver && last_norm <= tolerance_ * tolerance_) ==> __CPROVER_return_value)
 /*@BODY isSatisfied@*/
+
+/* ---- AtlasChart::psi: the same Newton scheme on a chart (residual b of the stacked system, matrix A) ---- */
+bool chart_psi(void)
+__CPROVER_requires(xver == 0 && steps == 0 && tolerance_ == tolerance_ && SQ_TOL == SQ_TOL)
+__CPROVER_assigns(xver, fver, jver, steps, last_norm, last_norm_ver)
+/* C16.project success means: the residual last looked at belongs to the returned point and is below the constraint's tolerance squared */
+__CPROVER_ensures(__CPROVER_return_value ==> (last_norm_ver == xver && last_norm < SQ_TOL))
+__CPROVER_ensures(steps <= maxIterations_ && xver == steps)
+/*@BODY psi@*/
+void h_psi(void) { bool r = chart_psi(); if (r && steps == 0) REACH("initial guess on the manifold"); if (r && steps > 1) REACH("converged"); if (!r && steps == maxIterations_ && steps > 0) REACH("iteration cap"); }
 
 void h_project(void) { bool r = constraint_project(); if (r && steps == 0) REACH("already on the manifold"); if (r && steps > 1) REACH("converged"); if (!r && steps == maxIterations_ && steps > 0) REACH("iteration cap"); if (!r && steps < maxIterations_) REACH("residual not a number or exactly at the tolerance"); }
 void h_isSatisfied(void) { bool r = constraint_isSatisfied(); if (r) REACH("satisfied"); else REACH("not satisfied"); }
